@@ -352,7 +352,7 @@ PROPS = {
     "C16": {
         "lean_modules": ["TemporalModel.Props.C16"],
         "suites": ["c16"],
-        "spec_ops": {"cal_rt": "cal_rt_spec"},
+        "spec_ops": {"cal_rt": "cal_rt_spec", "cal_withid": "cal_withid_spec"},
         "feed_ops": {"cal_law": "cal_law_chk"},
         "level_text": "Proof, for the calendars whose rules are arithmetic (gregory, buddhist, roc, japanese, coptic, ethiopic, "
                       "ethioaa, indian, islamic-civil, islamic-tbla, persian) and EVERY date of Temporal's range: C16_daycount_inverse (day "
@@ -364,17 +364,20 @@ PROPS = {
                       "at 1 - including the five Japanese era changes), C16_rebuild_from_year_code / _year_month / _era (from_partial "
                       "through the crate's era table, month-code validation and the library's date_from_codes returns the original "
                       "ISO date from each of the three field sets, both overflow modes; every reported year passes the crate's year "
-                      "guard), C16_japanese_nonpositive_year (the one exception, proved as a fact of the code), C16_year_guard (years "
+                      "guard), C16_with_own_fields_identity (with() merges into the receiver's own year, month code and day and "
+                      "returns the receiver when given its own fields), C16_japanese_nonpositive_year (the one exception, proved as a fact of the code), C16_year_guard (years "
                       "beyond +-300000 are RangeErrors before the library is asked), C16_with_calendar_keeps_iso. For ALL calendars: "
                       "C16_era_names_accepted (every era name handed to the library is a code that calendar accepts), "
                       "C16_reported_eras_accepted, C16_alias_unambiguous / C16_alias_resolves, C16_identifier_case_insensitive / "
                       "_lower_idem / _canonical / _roundtrip. Tie: every getter, the consecutive-day pair, the three rebuild routes, "
-                      "from_partial on random field subsets and on every (calendar, era alias, era year around each bound) cell, the "
+                      "from_partial on random field subsets and on every (calendar, era alias, era year around each bound) cell, "
+                      "PlainDate::with on random field subsets, to_plain_year_month and PlainYearMonth::from_partial, the "
                       "resolved library arguments (hook) and identifier parsing are compared with the model for the modelled "
                       "calendars; for chinese, dangi, hebrew, islamic, islamic-umalqura, japanext the crate's own resolution "
                       "is compared exactly, and the fields the implementation reports are handed to the driver, which evaluates "
-                      "the same Lean law predicates (FieldsOk, Consecutive) on them; the rebuild law is compared with its "
-                      "specification constant.",
+                      "the same Lean law predicates (FieldsOk, Consecutive) on them; the rebuild law, the with-own-fields identity and "
+                      "the first-of-month law of to_plain_year_month are compared with their specification constants for every "
+                      "calendar.",
         "level_note": "Trusted: Lean kernel (+propext, Classical.choice, Quot.sound); hand model of calendar.rs (getters, "
                       "date_from_partial, get_era_info, from_utf8), calendar/types.rs (EraYear, MonthCode::validate, "
                       "month_to_month_code), calendar/era.rs; the calendrical library (icu_calendar 2.0.0-beta2, "
